@@ -28,7 +28,7 @@ ASSUMPTIONS = ["segmentation is simulated at the socket API (recv return "
                "identified by its exact bytes (re-packed on delivery)"]
 REQUIRED = ["reads", "delivered", "cuts_inside_header", "cuts_inside_body",
             "held_partial", "ctl_cases", "sw_cases", "over_2048",
-            "handshake_streams", "reads_inside_a_handler", "hello_with_body",
+            "handshake_streams", "reads_inside_a_handler", "hello_with_body", "ctl_endpoints_with_the_nicira_unpacker",
             "moments_with_several_partial_messages", "handlers_that_raised",
             "sw_first_read_while_connecting", "sw_over_8192",
             "handshake_prefixes_segmented",
@@ -49,6 +49,20 @@ def boot ():
                                                     simnet.DeferredSenderStub):
     of_01.deferredSender = simnet.DeferredSenderStub()
   return of_01
+
+
+_vendor = {}
+
+def vendor_unpacker (nicira):
+  """The controller's vendor unpacker: the library's own, or the one the
+  Nicira extension installs in its place when it is launched."""
+  of_01 = boot()
+  import pox.openflow.nicira as nx
+  if "plain" not in _vendor:
+    _vendor["plain"] = of_01.unpackers[4]
+    nx._init_unpacker()
+    _vendor["nicira"] = of_01.unpackers[4]
+  of_01.unpackers[4] = _vendor["nicira" if nicira else "plain"]
 
 
 def make_stream (side, seed, big):
@@ -139,7 +153,8 @@ class Endpoint (object):
   """One connection under observation: the real controller-side Connection or
   the real switch-side IOWorker + OFConnection on a scripted socket, a
   recording handler, and the oracle over the bytes pulled so far."""
-  def __init__ (self, side, msgs, rep, fire, connecting=False, raise_at=(), tag=""):
+  def __init__ (self, side, msgs, rep, fire, connecting=False, raise_at=(), tag="",
+                nicira=False):
     self.side = side; self.msgs = msgs; self.rep = rep; self.fire = fire
     self.stream = b"".join(msgs)
     self.exp = [delivered_form(m) for m in msgs]
@@ -151,6 +166,8 @@ class Endpoint (object):
     self.max_per_read = 0
     of_01 = boot()
     if side == "ctl":
+      vendor_unpacker(nicira)
+      if nicira: rep.count("ctl_endpoints_with_the_nicira_unpacker")
       self.sock = simnet.FakeSocket("c02" + tag)
       self.con = of_01.Connection(self.sock)
       self.con.handlers = [self.rec.ctl_handler] * 32
@@ -271,7 +288,7 @@ def run_case (case, rep):
   if case.get("raise_at"):
     raise_at = [i % len(msgs) for i in case["raise_at"]]
   ep = Endpoint(side, msgs, rep, fire, connecting=case.get("connecting", False),
-                raise_at=raise_at)
+                raise_at=raise_at, nicira=case.get("nicira", False))
   # classify cuts
   inside_hdr = inside_body = 0
   for c in cuts:
@@ -287,8 +304,8 @@ def run_case (case, rep):
     if not ep.feed(seg): break
   ep.finish()
   rep.count("ctl_cases" if side == "ctl" else "sw_cases")
-  rep.case(("%s|%s|%r|%r|%r" % (side, case["seed"], cuts, case.get("connecting"),
-                                case.get("raise_at"))).encode(),
+  rep.case(("%s|%s|%r|%r|%r|%r" % (side, case["seed"], cuts, case.get("connecting"),
+                                   case.get("raise_at"), case.get("nicira"))).encode(),
            nontrivial=bool(inside_hdr or inside_body))
 
 
@@ -643,7 +660,13 @@ def plan (tier, seed):
 def run (spec, rep):
   boot()
   first = True
+  n = 0
   for case in gen_cases(spec):
+    n += 1
+    # every third controller-side stream is read by a controller that has
+    # the Nicira extension loaded (its unpacker handles all vendor messages)
+    if case.get("side") == "ctl" and case.get("kind") is None and n % 3 == 0:
+      case["nicira"] = True
     try:
       if case.get("kind") == "hs": run_hs(case, rep)
       elif case.get("kind") == "multi": run_multi(case, rep)
